@@ -34,7 +34,7 @@ Code == Variant = "code"
 \* ===========================================================================
 \* N >= 7: the instance that tells the bandwidth tiers apart (holes strictly between t/2, t, 2t and 3t need 7 offsets)
 CoalTM == IF N >= 7 THEN {<<2, N>>, <<3, N>>}
-          ELSE IF Tier = "quick" THEN {<<1, 2>>, <<2, 3>>, <<4, 4>>} ELSE {<<0, 2>>, <<1, 2>>, <<2, 3>>, <<2, 8>>, <<4, 4>>}
+          ELSE IF Tier = "quick" THEN {<<1, 2>>, <<2, 3>>} ELSE {<<0, 2>>, <<1, 2>>, <<2, 3>>, <<2, 8>>, <<4, 4>>}
 CoalBw == {0, MiB, 5 * MiB, 20 * MiB, 100 * MiB}
 CoalCfgs == {c \in {[impl |-> "adv", thr |-> x[1], max |-> x[2], maxn |-> 64, bw |-> b, shift |-> s, lim |-> N - 1] :
                       x \in CoalTM, b \in CoalBw, s \in {"0", "top"}} : c.shift = "top" => c.bw = 0}
